@@ -263,6 +263,9 @@ func dnsScenario(name string, size int, clockSteps []time.Duration, ops ...[]dns
 						e.observe("t%d.%d dial %s err", ti, oi, op.host)
 						continue
 					}
+					rmu.Lock()
+					delete(resolvedAt, e.tid()) // set again if this lookup goes through the resolver
+					rmu.Unlock()
 					addrs, expires, cached, ok := dns.Lookup(op.host)
 					if !ok {
 						e.observe("t%d.%d %s -> failed", ti, oi, op.host)
@@ -285,9 +288,13 @@ func dnsScenario(name string, size int, clockSteps []time.Duration, ops ...[]dns
 							e.violate("lookup of %s served a cached entry at %v, at or past its expiry %v", op.host, at.Sub(t0), expires.Sub(t0))
 						}
 					}
-					if !cached && !e.free {
-						// a miss went through the resolver: what comes back is handed out no earlier than the resolver's return
-						if at, ok := resolvedAt[e.tid()]; ok && !at.Before(expires) {
+					if !e.free {
+						// the lookup went through the resolver (whatever it says about "cached" afterwards): what comes back is
+						// handed out no earlier than the resolver's return
+						rmu.Lock()
+						at, ok := resolvedAt[e.tid()]
+						rmu.Unlock()
+						if ok && !at.Before(expires) {
 							e.violate("lookup of %s (after resolving) was handed an entry that had expired at %v, before the resolver even returned at %v", op.host, expires.Sub(t0), at.Sub(t0))
 						}
 					}
